@@ -95,6 +95,8 @@ PARAM_MENU = [["language", ["s", "de"]], ["ALTREP", ["s", "http://example.com/a,
               ["x-twice", ["list", [["s", "k"], ["s", "j"], ["s", "k"]]]],
               # what files written by other producers carry: an explicit TZID=UTC next to a UTC value
               ["TZID", ["s", "UTC"]], ["tzid", ["s", "UTC"]],
+              # add(..., parameters={name: None}) means "no such parameter" (documented): the others stay as given
+              ["X-GONE", ["n"]], ["x-gone-2", ["n"]],
               ["A-FIRST", ["s", "1"]], ["z-last", ["s", "2"]], ["RELATED", ["s", "END"]],
               ["X-SEAT-1", ["s", "a"]], ["X-SEAT-01", ["s", "b"]], ["X-SEAT-10", ["s", "c"]], ["x-seat-2", ["s", "d"]]]
 
@@ -599,7 +601,8 @@ def run_variant(trace, res, with_observers, tag, stepbase=0, checks=True):
                 if a.get("raw"):
                     value = getattr(P, a["raw"])(value)
                     for k, v in a["params"]:
-                        value.params[k] = to_py(v)
+                        if v != ["n"]:
+                            value.params[k] = to_py(v)
                     if checks and a["params"]:
                         res.probe("raw_value_object_with_params")
                     if op == "setitem":
